@@ -193,7 +193,7 @@ def gen_purity_world(rw, rv, knobs):
             R.add("a", {"kind": "array2d", "mask": ref(mt), "input": "slim", "values": hx(rv, n2, "data")})
             R.add("a", {"kind": "array2d", "mask": ref(m2), "input": "slim", "values": hx(rv, n2, "data")})
         for _ in range(rw.randrange(2, 6)):
-            k = rw.choice(["array2d", "grid2d", "grid2d", "grid2d_values", "vector", "kernel", "vis", "array1d", "irregular", "array2d", "operators", "mask_ctor", "kernel_gaussian"])
+            k = rw.choice(["array2d", "grid2d", "grid2d", "grid2d_values", "vector", "kernel", "vis", "array1d", "irregular", "array2d", "operators", "mask_ctor", "kernel_gaussian", "mesh"])
             mid, bits_, hh, ww, nn = rw.choice([(m0, m0_bits, h, w, n0), (m2, m2_bits, h2, w2, n2)])
             if k == "array2d":
                 vstyle = rw.choice(["data", "data", "data0", "positive"])
@@ -205,6 +205,11 @@ def gen_purity_world(rw, rv, knobs):
                 over = rw.choice([None, None, {"uniform": 2}, {"uniform": 1}, {"perpix": [rw.choice([1, 2, 3]) for _ in range(nn)]}, {"iterate": [2, 4]},
                                   {"iterate": [2, 4, 8], "accuracy": 0.99}, {"iterate": [2, 4, 8], "accuracy": 0.999}])
                 R.add("g", {"kind": "grid2d", "mask": ref(mid), "mode": "from_mask", "over": over})
+            elif k == "mesh":
+                # a stand-alone source-plane mesh (a structure like any other: it can be shifted, scaled, copied and interpolated)
+                mesh_kind = rw.choice(["delaunay", "delaunay", "voronoi"])
+                R.add("mg", {"kind": "mesh_grid", "mask": ref(mid), "sub_size": 1,
+                             "mesh": {"kind": mesh_kind, "points": [prng.fhex(rv.uniform(-2.0, 2.0)) for _ in range(2 * rw.randrange(4, 9))]}})
             elif k == "grid2d_values":
                 mode = rw.choice(["native", "slim"])
                 n = hh * ww * 2 if mode == "native" else nn * 2
@@ -572,6 +577,16 @@ def gen_preloads_world(rw, rv, knobs):
             parts[name] = R.add("dp", {"kind": "derive", "src": ref(D), "q": {"t": "prop", "name": name}})
         DI = R.add("di", {"kind": "dataset_interface", "data": ref(parts["data"]), "noise": ref(parts["noise_map"]), "grids": ref(parts["grids"]),
                           "convolver": ref(parts["convolver"]), "w_tilde": ref(parts["w_tilde"])})
-    meta = {"D": D, "D2": D2, "DI": DI, "L": L, "L2": L2, "L3": L3, "st_w": st_w, "st_m": st_m, "src": src, "P": P, "slots": slots, "preloads_use_w_tilde": pl_use,
+    # the dataset with a DIFFERENT image (foreground light subtracted, as galaxy-modelling code does before every inversion) but the
+    # very same noise-map, grids, convolver and w-tilde objects: tables tied to noise / PSF / mask are shared, the image is not
+    DX = None
+    if not knobs.get("harvest") and rw.random() < 0.35:
+        xdata = R.add("a", {"kind": "array2d", "mask": ref(m0), "input": "slim", "values": hx(rv, n0, data_style)})
+        xparts = {}
+        for name in ("noise_map", "grids", "convolver", "w_tilde"):
+            xparts[name] = R.add("dp", {"kind": "derive", "src": ref(D), "q": {"t": "prop", "name": name}})
+        DX = R.add("di", {"kind": "dataset_interface", "data": ref(xdata), "noise": ref(xparts["noise_map"]), "grids": ref(xparts["grids"]),
+                          "convolver": ref(xparts["convolver"]), "w_tilde": ref(xparts["w_tilde"])})
+    meta = {"D": D, "D2": D2, "DI": DI, "DX": DX, "L": L, "L2": L2, "L3": L3, "st_w": st_w, "st_m": st_m, "src": src, "P": P, "slots": slots, "preloads_use_w_tilde": pl_use,
             "has_mapper": has_mapper, "kernel": [ky, kx], "signed_psf": signed, "n_obj": n_obj}
     return R.nodes, meta
